@@ -192,6 +192,7 @@ fn eval_union_expr(
 
     let mut set = HashSet::new();
     nodes.retain(|v| set.insert(v.order()));
+    nodes.sort_by_cached_key(|v| v.order());
 
     Ok(nodes.as_value())
 }
